@@ -1,5 +1,6 @@
 import CkptVerif.Proofs.Period
 import CkptVerif.Proofs.PeriodicOps
+import CkptVerif.Proofs.RevolveSteps
 /-!
 # C19 — PeriodicDiskRevolve really is periodic, with a period independent of `n`
 
@@ -22,4 +23,10 @@ alias C19_ops := periodic_disk_ops
 
 example : mxrr 2 1 7 = some 6 := by decide
 
+end Ckpt
+
+namespace Ckpt
+/-- each segment (the tail and every period block) is reversed with the memory-only Revolve
+optimum number of forward steps -/
+alias C19_segments := RC.periodic_segments_fwdSteps
 end Ckpt
